@@ -447,29 +447,7 @@ def block_nonblank_chains(c: Ctx, r: RuleResult | None = None) -> dict[str, bool
             call = cs.node
             st = U(call.args[0]) if call.args else "state"
             line = call.args[1] if len(call.args) > 1 else None
-            ok, how = False, "no non-blank fact for the dispatched line"
-            if line is not None:
-                cfg, res = c.facts(g)
-                ltxt = U(line)
-                for n in cfg.owner(call):
-                    z = res.get(n.id)
-                    if z is None:
-                        continue
-                    z = expr_local(z, call, n.ast, g.module.parents) if n.ast is not None else z
-                    if z.holds(f"{st}.isEmpty({ltxt})", False):
-                        ok, how = True, f"dominated by a false test of {st}.isEmpty({ltxt})"
-                    elif z.entails(f"{st}.bMarks[{ltxt}] + {st}.tShift[{ltxt}]", f"{st}.eMarks[{ltxt}]", -1):
-                        ok, how = True, f"dominated by bMarks[{ltxt}] + tShift[{ltxt}] < eMarks[{ltxt}]"
-                    else:
-                        # line = state.skipEmptyLines(line) followed by `line < endLine`
-                        rd = _single_reaching_call(c, g, call, line)
-                        if rd == "skipEmptyLines" and len(call.args) > 2 and z.entails(ltxt, U(call.args[2]), -1):
-                            ok, how = True, (f"{ltxt} is the result of skipEmptyLines (first non-blank line or lineMax) and "
-                                             f"{ltxt} < {U(call.args[2])} (assumed <= lineMax) at the dispatch")
-                        else:
-                            ok = False
-                            how = "no non-blank fact for the dispatched line"
-                            break
+            ok, how = _nonblank_at(c, g, call, st, line, call.args[2] if len(call.args) > 2 else None, 0)
             out[alt] = out.get(alt, True) and ok
             if r is not None:
                 r.add(f"nonblank|{g.short}|{alt}", c.where(g, call), g.short, U(call)[:80], "discharged",
@@ -478,6 +456,56 @@ def block_nonblank_chains(c: Ctx, r: RuleResult | None = None) -> dict[str, bool
     if len(found) < 5:
         raise AnchorError(f"only {len(found)} block dispatch sites found (expected main + terminator chains)")
     return out
+
+
+def _nonblank_at(c: Ctx, g: Func, call: ast.Call, st: str, line: ast.AST | None, end: ast.AST | None, depth: int) -> tuple[bool, str]:
+    """Is the line handed to the dispatch at `call` (in g) known to be non-blank?  When the dispatch sits in a private helper
+    that receives the line as a parameter, the question is asked at every call of the helper."""
+    if line is None:
+        return False, "no non-blank fact for the dispatched line"
+    cfg, res = c.facts(g)
+    ltxt = U(line)
+    hows = []
+    for n in cfg.owner(call):
+        z = res.get(n.id)
+        if z is None:
+            continue
+        z = expr_local(z, call, n.ast, g.module.parents) if n.ast is not None else z
+        if z.holds(f"{st}.isEmpty({ltxt})", False):
+            hows.append(f"dominated by a false test of {st}.isEmpty({ltxt})")
+            continue
+        if z.entails(f"{st}.bMarks[{ltxt}] + {st}.tShift[{ltxt}]", f"{st}.eMarks[{ltxt}]", -1):
+            hows.append(f"dominated by bMarks[{ltxt}] + tShift[{ltxt}] < eMarks[{ltxt}]")
+            continue
+        rd = _single_reaching_call(c, g, call, line)
+        if rd == "skipEmptyLines" and end is not None and z.entails(ltxt, U(end), -1):
+            hows.append(f"{ltxt} is the result of skipEmptyLines (first non-blank line or lineMax) and {ltxt} < {U(end)} "
+                        f"(assumed <= lineMax) at the dispatch")
+            continue
+        # the line is a parameter of a private helper: lift to the helper's call sites
+        params = [a.arg for a in g.node.args.posonlyargs + g.node.args.args]
+        callers = [x for x in c.cg.callers.get(g, []) if x.kind in ("direct", "method")]
+        if isinstance(line, ast.Name) and line.id in params and callers and depth < 2 \
+                and not any(isinstance(t_, ast.Name) and t_.id == line.id and isinstance(t_.ctx, ast.Store) for t_ in own_nodes(g.node)):
+            sub_ok = True
+            sub_how = ""
+            for x in callers:
+                a_line = c.eff.arg_for_param(x, g, line.id)
+                a_st = c.eff.arg_for_param(x, g, st) if st in params else None
+                a_end = c.eff.arg_for_param(x, g, end.id) if isinstance(end, ast.Name) and end.id in params else None
+                if a_line is None or a_st is None:
+                    sub_ok = False
+                    break
+                o_, h_ = _nonblank_at(c, x.caller, x.node, U(a_st), a_line, a_end, depth + 1)
+                if not o_:
+                    sub_ok = False
+                    break
+                sub_how = f"at the call of {g.short} in {x.caller.short}: {h_}"
+            if sub_ok:
+                hows.append(sub_how)
+                continue
+        return False, "no non-blank fact for the dispatched line"
+    return (True, hows[0]) if hows else (False, "no non-blank fact for the dispatched line")
 
 
 def _single_reaching_call(c: Ctx, g: Func, at: ast.AST, name_expr: ast.AST) -> str | None:
